@@ -226,7 +226,35 @@ func shortPkg(p *types.Package) string {
 // for, so that a sort mentioned only through a memoised write set can be declared.
 var sortTypes = map[string]types.Type{}
 
+// hk is the heap key for cells of Go type t: the SMT sort of t, and for
+// reference-like cells (slices, pointers, interfaces, maps, funcs, chans) also
+// the Go type, so that cells of different Go types never share a heap (they can
+// not alias in Go; sharing made nested slices of different depth alias in the
+// model).
+func (c *Ctx) hk(t types.Type) string {
+	s := c.sortOf(t)
+	switch s {
+	case "Slice", "Ptr", "Iface", "Int":
+		if isRefType(t) {
+			return s + "@" + sanitize(types.TypeString(t, nil))
+		}
+	}
+	return s
+}
+
+// baseSort strips the Go-type tag from a heap key.
+func baseSort(key string) string {
+	if strings.HasPrefix(key, "map!") {
+		return key
+	}
+	if i := strings.Index(key, "@"); i >= 0 {
+		return key[:i]
+	}
+	return key
+}
+
 func (c *Ctx) ensureSort(key string) {
+	key = baseSort(key)
 	if !strings.HasPrefix(key, "T_") || c.declared["struct:"+key] {
 		return
 	}
@@ -364,7 +392,7 @@ func (c *Ctx) heapSortOf(key string) string {
 }
 
 func (c *Ctx) heapSort(elemSort string) string {
-	return "(Array Int (Array Int " + elemSort + "))"
+	return "(Array Int (Array Int " + baseSort(elemSort) + "))"
 }
 
 // zero value of a type as SMT term.
